@@ -9,10 +9,12 @@ import (
 
 	"github.com/hashicorp/hcl/v2"
 	"github.com/hashicorp/hcl/v2/ext/dynblock"
+	"github.com/hashicorp/hcl/v2/gohcl"
 	"github.com/hashicorp/hcl/v2/hcldec"
 	"github.com/hashicorp/hcl/v2/hclsyntax"
 	hcljson "github.com/hashicorp/hcl/v2/json"
 	"github.com/zclconf/go-cty/cty"
+	"github.com/zclconf/go-cty/cty/function"
 
 	"verifharness/core"
 	"verifharness/gen"
@@ -392,6 +394,9 @@ var c19Directed = []string{
 	// that holds the same secret number twice (dn)
 	`{for v in dl: v => 1}`, `{for i, v in dl: "${v}" => i}`, `{for v in dl: upper(v) => 1}`, `{for v in dl: (dl[*])[0] => v}`, `{for v in dn: v => 1}`, `{for v in dn: "k${v}" => 1}`,
 	`{for k, v in {a = dl[0], b = dl[1]}: v => k}`, `[for v in dl: {(v) = 1, (v) = 2}]`,
+	// arguments that cannot convert to a parameter's collection type
+	`takes_map({(s) = []})`, `takes_map(okey)`, `takes_map(okeys)`, `takes_map({a = okey})`, `takes_list(mp)`, `takes_list(okey)`, `takes_list({(s) = 1})`, `takes_list([okeys])`,
+	`takes_obj(okey)`, `takes_obj({a = {(s) = 1}})`, `takes_obj(onest)`, `takes_map(lst)`, `takes_list(obj)`, `takes_map({(n) = [n]})`,
 	`"${s}" + 1`, `"${n}x" * 2`, `("${n}") + s`, `upper("${n}") - 1`, `{(upper(s)) = 1}["x"]`, `{"${s}" = 1}.nope`,
 }
 
@@ -435,11 +440,51 @@ func c19DirectedCase(c *core.Case, src string) {
 		he = ne
 	}
 	c.SetInput(src + "\nSCOPE: " + scopeStr(sc))
-	_, d := he.Value(evalCtx(sc))
+	ctx := evalCtx(sc)
+	fns := map[string]function.Function{}
+	for n, f := range ctx.Functions {
+		fns[n] = f
+	}
+	for n, ty := range map[string]cty.Type{"takes_map": cty.Map(cty.String), "takes_list": cty.List(cty.Number), "takes_obj": cty.Object(map[string]cty.Type{"a": cty.String})} {
+		fns[n] = function.New(&function.Spec{
+			Params: []function.Parameter{{Name: "arg", Type: ty, AllowMarked: true, AllowNull: true, AllowUnknown: true}},
+			Type:   function.StaticReturnType(cty.Bool),
+			Impl:   func(a []cty.Value, r cty.Type) (cty.Value, error) { return cty.True, nil },
+		})
+	}
+	ctx.Functions = fns
+	_, d := he.Value(ctx)
 	c.Evals(1)
 	c.Count("route:directed")
 	c19Bound = map[string]bool{"v": true, "k": true}
-	if c19Check(c, cs, d, []byte(src), filename, "evaluating "+src, func() string { return "directed:" + tpl }) && len(d) > 0 {
+	if !c19Check(c, cs, d, []byte(src), filename, "evaluating "+src, func() string { return "directed:" + tpl }) {
+		return
+	}
+	// the same expression decoded into Go values of several shapes
+	for _, target := range []any{new(map[string]string), new([]int), new(string), new(map[string][]string), new(struct {
+		A string `cty:"a"`
+	})} {
+		// (gocty does not accept marked values and panics when the conversion itself
+		// succeeds; that is outside this property, only diagnostics are judged)
+		var gd hcl.Diagnostics
+		func() {
+			defer func() {
+				if p := recover(); p != nil {
+					if !strings.Contains(fmt.Sprint(p), "marked") {
+						panic(p)
+					}
+					c.Count("gohcl:panics-on-marked-value(gocty, not judged)")
+				}
+			}()
+			gd = gohcl.DecodeExpression(he, ctx, target)
+		}()
+		c.Evals(1)
+		if !c19Check(c, cs, gd, []byte(src), filename, fmt.Sprintf("gohcl.DecodeExpression of %s into %T", src, target), func() string { return fmt.Sprintf("directed-gohcl(%T):%s", target, tpl) }) {
+			return
+		}
+		c.Count("route:directed-gohcl")
+	}
+	if len(d) > 0 {
 		c.NonTrivial("directed:" + tpl)
 	}
 }
